@@ -147,4 +147,25 @@ theorem memo_across_requests_unsound :
      | .ok (g1, _), .ok (g2, _) => g1.length != g2.length
      | _, _ => false) = true := by decide
 
+/-- source position of the first selection when it is a field (the identity of the LEADING node) -/
+def leadingLoc : List Sel → Option Nat
+  | .field _ _ loc _ _ _ _ :: _ => some loc
+  | _ => none
+
+/-- keying the table by (parent type, LEADING node) instead of (parent type, all selections) is NOT transparent even
+    within one request (`hsame` of `memo_sound` fails): the merged sub-selection of a response key is a function of the
+    whole node list. Witness = seeded change C05-12 / C04-11: `pets { owner { name } ... on Dog { owner { phone } } }` -
+    for a Cat the key `owner` merges `[name]`, for a Dog `[name, phone]`; both lists start with the same node. After the
+    Cat, the Dog is served the Cat's grouped fields (one key instead of two). -/
+theorem memo_by_leading_node_unsound :
+    let nameSel := Sel.field "name" "name" 17 [] [] false []
+    let phoneSel := Sel.field "phone" "phone" 52 [] [] false []
+    let d : Doc := { ops := [], frags := [] }
+    let s : SchemaD := { types := [] }
+    let same : String × List Sel → String × List Sel → Bool := fun a b => a.1 == b.1 && leadingLoc a.2 == leadingLoc b.2
+    let afterCat := (memoCollect s d [] 3 same [] "Owner" [nameSel]).2
+    (match (memoCollect s d [] 3 same afterCat "Owner" [nameSel, phoneSel]).1, collectFields s d [] 3 "Owner" [nameSel, phoneSel] [] with
+     | .ok (g1, _), .ok (g2, _) => (g1.length, g2.length) == (1, 2)
+     | _, _ => false) = true := by decide
+
 end PyGql.Props.C04
